@@ -133,6 +133,11 @@ func (c *logCase) noteAllSynced() {
 }
 
 func (c *logCase) hook(point, path string) {
+	if c.crash && (point == "sync.data" || point == "sync.done") {
+		// power loss in the middle of the msync that just returned: any subset of
+		// the pages dirtied since the previous flush may have reached the disk
+		c.powerImage(point+"~during", true)
+	}
 	switch point {
 	case "sync.data", "sync.done":
 		// msync returned: the whole file content is on stable storage
@@ -159,36 +164,50 @@ func (c *logCase) hook(point, path string) {
 	c.images = append(c.images, image{point: point, dir: kd})
 	// power-loss image: per 4 KiB page either what was last flushed or what is there now
 	if c.seg >= 8192 || c.pick(4) == 0 {
-		c.nimg++
-		pd := filepath.Join(c.base, fmt.Sprintf("img%d", c.nimg))
-		_ = os.MkdirAll(pd, 0700)
-		torn := false
-		for _, f := range c.files() {
-			cur, err := ioutil.ReadFile(f)
-			if err != nil {
-				continue
-			}
-			old, known := c.synced[filepath.Base(f)]
-			out := append([]byte(nil), cur...)
-			if known && len(old) == len(cur) {
-				for off := 0; off < len(cur); off += 4096 {
-					end := off + 4096
-					if end > len(cur) {
-						end = len(cur)
-					}
-					if !bytes.Equal(cur[off:end], old[off:end]) && c.pick(2) == 0 {
-						copy(out[off:end], old[off:end])
-						torn = true
-					}
+		c.powerImage(point, false)
+	}
+}
+
+// powerImage stores an image in which every 4 KiB page that differs from the
+// last flushed content is, by generated choice, either the flushed or the
+// current one. With onlyTorn the image is dropped when no page was reverted.
+func (c *logCase) powerImage(point string, onlyTorn bool) {
+	c.nimg++
+	pd := filepath.Join(c.base, fmt.Sprintf("img%d", c.nimg))
+	_ = os.MkdirAll(pd, 0700)
+	torn := false
+	for _, f := range c.files() {
+		cur, err := ioutil.ReadFile(f)
+		if err != nil {
+			continue
+		}
+		old, known := c.synced[filepath.Base(f)]
+		out := append([]byte(nil), cur...)
+		if known && len(old) == len(cur) {
+			for off := 0; off < len(cur); off += 4096 {
+				end := off + 4096
+				if end > len(cur) {
+					end = len(cur)
+				}
+				if !bytes.Equal(cur[off:end], old[off:end]) && c.pick(2) == 0 {
+					copy(out[off:end], old[off:end])
+					torn = true
 				}
 			}
-			_ = ioutil.WriteFile(filepath.Join(pd, filepath.Base(f)), out, 0600)
 		}
-		if torn {
-			c.classes["power-image-torn"]++
-		}
-		c.images = append(c.images, image{point: point, dir: pd, power: true})
+		_ = ioutil.WriteFile(filepath.Join(pd, filepath.Base(f)), out, 0600)
 	}
+	if onlyTorn && !torn {
+		_ = os.RemoveAll(pd)
+		return
+	}
+	if torn {
+		c.classes["power-image-torn"]++
+	}
+	if onlyTorn {
+		c.classes["power-image-during-msync"]++
+	}
+	c.images = append(c.images, image{point: point, dir: pd, power: true})
 }
 
 // checkImages validates every image taken during the last operation against the
@@ -239,9 +258,10 @@ func (c *logCase) checkImages(pre *logModel, op logOp) *logFail {
 			okPre := pre.has(i) && bytes.Equal(pre.get(i), b)
 			okPost := post.has(i) && bytes.Equal(post.get(i), b)
 			if !okPre && !okPost {
-				_ = l.Close()
 				what := "an entry that was never appended at that index (or a torn one)"
-				return &logFail{"image-foreign-entry/" + kind, fmt.Sprintf("%s image at %s during %s: index %d holds %s: %d bytes %x...", kind, im.point, op, i, what, len(b), head(b))}
+				lf := &logFail{"image-foreign-entry/" + kind, fmt.Sprintf("%s image at %s during %s: index %d holds %s: %d bytes %x...", kind, im.point, op, i, what, len(b), head(b))}
+				_ = l.Close() // b points into the mapping: only unmap after formatting
+				return lf
 			}
 		}
 		// durability: committed before the operation and not removed by it
